@@ -268,13 +268,16 @@ func (e *expansionAlt) eval(cfg *Config, opts *options) (string, error) {
 	ref := newReference(parsePath(path, e.pathSep, opts.maxIdx, opts.enableNumKeys, opts.escapePath))
 
 	// the name is only looked up here; it must not stay registered as "being
-	// evaluated" afterwards, or "${v:+x}${v}" would report a cyclic reference
+	// evaluated" once the lookup is done, or "${v:+x}${v}" and "${v:+${v}}"
+	// would report a cyclic reference
 	name := ref.Path.String()
-	if fields := opts.activeFields; fields != nil && !fields.Has(name) {
-		defer fields.Remove(name)
-	}
+	fields := opts.activeFields
+	wasActive := fields != nil && fields.Has(name)
 
 	tmp, err := ref.resolve(cfg, opts)
+	if fields != nil && !wasActive {
+		fields.Remove(name)
+	}
 	if err != nil || tmp == nil {
 		return "", nil
 	}
